@@ -88,9 +88,43 @@ func RunRandom(seed int64, g *GenesisSpec, naccts int, p Profile, root string, e
 	if setup != nil {
 		setup(gen)
 	}
-	do := func(op Op) J {
+	exec := func(op Op) J {
 		sc.Ops = append(sc.Ops, op)
 		return r.Exec(&sc.Ops[len(sc.Ops)-1])
+	}
+	paths := []string{"account", "account", "delegatee", "reward", "gov_params", "stakes/total_power", "stakes", "proposal", "stakes/voting_power"}
+	queries := func() {
+		for i := gen.Rng.Intn(p.Queries + 1); i > 0 && r.Dead == ""; i-- {
+			path := paths[gen.Rng.Intn(len(paths))]
+			qh := int64(gen.Rng.Intn(int(r.Height) + 3)) // 0 = latest, 1..latest, one and two beyond
+			if gen.Rng.Intn(3) == 0 {
+				qh = r.Height - int64(gen.Rng.Intn(2))
+				if qh < 0 {
+					qh = 0
+				}
+			}
+			var data []byte
+			switch path {
+			case "gov_params", "stakes/total_power", "stakes/voting_power":
+			case "proposal":
+				if ids := ToView(Project(r.App, r.KR, ProjOpts{})).Props; len(ids) > 0 && gen.Rng.Intn(2) == 0 {
+					for id := range ids {
+						data = r.KR.HashOf(id)
+						break
+					}
+				}
+			default:
+				data = r.KR.Addr(1 + gen.Rng.Intn(naccts+1))
+			}
+			exec(Op{Kind: "query", Path: path, Data: fmt.Sprintf("%x", data), QH: qh})
+		}
+	}
+	do := func(op Op) J {
+		ev := exec(op)
+		if p.Queries > 0 && r.Dead == "" {
+			queries()
+		}
+		return ev
 	}
 	for h := int64(1); h <= int64(p.Blocks) && r.Dead == ""; h++ {
 		hd := gen.Cons.Header(h, gen.Rng, p.PAbsent, p.PEvidence, p.PNoProposer, gen.Stranger())
@@ -129,6 +163,9 @@ func RunRandom(seed int64, g *GenesisSpec, naccts int, p Profile, root string, e
 			break
 		}
 		do(Op{Kind: "commit"})
+		if r.Dead == "" && gen.Rng.Float64() < p.PRestart {
+			do(Op{Kind: "restart"})
+		}
 	}
 	return sc, r, nil
 }
